@@ -180,7 +180,7 @@ pub fn strategy() -> BoxedStrategy<ParCase> {
     (any::<bool>(), 1u8..=3, any::<u16>())
         .prop_flat_map(|(wide, n, base)| {
             let px = proptest::collection::vec(word(base), n as usize);
-            let cmd = (prop_oneof![Just((base & 0xff) as u8), any::<u8>()], proptest::collection::vec(prop_oneof![Just((base & 0xff) as u8), any::<u8>()], 0..=18))
+            let cmd = (prop_oneof![4 => Just((base & 0xff) as u8), 4 => any::<u8>(), 1 => Just(0u8)], proptest::collection::vec(prop_oneof![Just((base & 0xff) as u8), any::<u8>()], 0..=18))
                 .prop_map(|(cmd, args)| ParOp::Cmd { cmd, args });
             let pixels = proptest::collection::vec(px.clone(), 0..40).prop_map(|px| ParOp::Pixels { px });
             let same = word(base).prop_map(move |v| vec![v; n as usize]);
@@ -284,7 +284,7 @@ pub fn bus_strategy() -> BoxedStrategy<BusCase> {
     (any::<bool>(), any::<u16>(), any::<bool>())
         .prop_flat_map(|(wide, base, late)| {
             // few distinct values, so that "equal to the cached / attempted value" happens often
-            let val = prop_oneof![3 => Just(base), 2 => Just(!base), 2 => (0u32..16).prop_map(move |b| base ^ (1 << b)), 1 => any::<u16>()];
+            let val = prop_oneof![3 => Just(base), 2 => Just(!base), 2 => (0u32..16).prop_map(move |b| base ^ (1 << b)), 1 => any::<u16>(), 1 => Just(0u16), 1 => Just(0xffffu16)];
             let step = (val, prop_oneof![3 => Just(None), 2 => (0u8..16).prop_map(Some)]);
             (Just(wide), Just(late), proptest::collection::vec(step, 1..12))
         })
